@@ -1,9 +1,10 @@
 (* C05  The log is append-only: entries never change or vanish.
-   Set/content part proved here for every step of every well-formed history; the subsequence
-   clause for Values() is in C05_values_subsequence (strict total orderings); the aliasing clause
-   (Go shares entries by pointer) is checked by execution only (harness deep-copies). *)
+   Proved for every step / continuation of every well-formed history; the subsequence clause for
+   Values() (C05_values_subsequence) for strict total orderings; the aliasing clause (Go shares
+   entries by pointer) is checked by execution only (the harness snapshots every log). *)
 From Coq Require Import List ZArith Bool Lia Permutation.
-From IpfsLog Require Import Model.System Proofs.OmapProofs Proofs.Inv Proofs.SysProofs Proofs.StepProofs.
+From IpfsLog Require Import Model.System Proofs.OmapProofs Proofs.Inv Proofs.SysProofs Proofs.StepProofs
+     Proofs.TravProofs Proofs.TimeProofs Proofs.ValuesProofs.
 Import ListNotations.
 Open Scope Z_scope.
 
@@ -52,6 +53,30 @@ Proof.
     destruct (IH (ops ++ [o]) l1 W H1) as [l2 [H3 H4]]. exists l2. split; [exact H3|]. auto.
 Qed.
 
+(* each new linearised view contains the previous one as a subsequence, for every total ordering
+   (hash-tiebreak always; default ordering on tie-free logs; with ties see known finding K2) *)
+Theorem C05_values_subsequence ops more r l l' :
+  wf (ops ++ more) -> Z.of_nat (length (ops ++ more)) < two63 ->
+  nth_error (s_logs (run ops)) r = Some l -> nth_error (s_logs (run (ops ++ more))) r = Some l' ->
+  order_total l -> order_total l' ->
+  exists v v', values l = Some v /\ values l' = Some v' /\ subseq (oslice v) (oslice v').
+Proof.
+  intros W Hlen L L' O O'.
+  pose proof (wf_from_app _ _ _ W) as W0.
+  destruct (sinv_run (ops ++ more) W) as [UO' IL']. destruct (sinv_run ops W0) as [UO IL].
+  assert (Hlen0 : Z.of_nat (length ops) < two63) by (rewrite app_length in Hlen; lia).
+  pose proof (times_in_range ops r l W0 Hlen0 L) as T. pose proof (times_in_range (ops ++ more) r l' W Hlen L') as T'.
+  destruct (C05_monotone_over_histories ops more r l W L) as [l2 [L2 Sub]]. rewrite L' in L2. injection L2 as <-.
+  destruct (values_spec _ l UO (IL r l L) T O) as [v [V [_ [B [_ D]]]]].
+  destruct (values_spec _ l' UO' (IL' r l' L') T' O') as [v' [V' [_ [B' [_ D']]]]].
+  exists v, v'. split; [exact V|]. split; [exact V'|].
+  (* l satisfies the invariant also with respect to the larger universe *)
+  assert (Il : linv (s_univ (run (ops ++ more))) l).
+  { destruct (IL r l L) as [F1 F2 F3 F4 F5 F6 F7 F8]. split; auto. intros k e H. destruct (F2 k e H) as [HU Hk]. split; [|exact Hk].
+    destruct (li_in_U _ _ (IL' r l' L') k e (Sub k e H)). assumption. }
+  exact (values_subsequence _ l l' v v' UO' Il (IL' r l' L') T' Sub B B' D D').
+Qed.
+
 From IpfsLog Require Import Model.ExampleHist Proofs.WfBool.
 Example C05_nonvacuous : wf (firstn 9 ex_hist ++ skipn 9 ex_hist) /\ length (s_logs (run (firstn 9 ex_hist))) = 3%nat.
 Proof. split; [apply wfb_wf; vm_compute; reflexivity|reflexivity]. Qed.
@@ -59,4 +84,5 @@ Proof. split; [apply wfb_wf; vm_compute; reflexivity|reflexivity]. Qed.
 Print Assumptions C05_entries_never_vanish.
 Print Assumptions C05_other_replicas_untouched.
 Print Assumptions C05_monotone_over_histories.
+Print Assumptions C05_values_subsequence.
 Print Assumptions C05_nonvacuous.
